@@ -20,7 +20,17 @@ func implDhPublic(g string, x []byte) string {
 }
 func implDhShared(g string, x, y []byte) string {
 	return run(func() string {
-		return okS(Hx(dh.StrToType(dhNames[g]).GetSharedKey(new(big.Int).SetBytes(x), new(big.Int).SetBytes(y))))
+		// the caller's numbers are its own: an exponent object used for the public value, for a shared secret and for the
+		// public value again (one exponent towards several peers) still holds the exponent
+		xb, yb := new(big.Int).SetBytes(x), new(big.Int).SetBytes(y)
+		t := dh.StrToType(dhNames[g])
+		p1 := t.GetPublicValue(xb)
+		sh := t.GetSharedKey(xb, yb)
+		p2 := t.GetPublicValue(xb)
+		if xb.Cmp(new(big.Int).SetBytes(x)) != 0 || yb.Cmp(new(big.Int).SetBytes(y)) != 0 || !bytes.Equal(p1, p2) {
+			return "(arguments-modified " + hx(xb.Bytes()) + " " + hx(yb.Bytes()) + ")"
+		}
+		return okS(Hx(sh))
 	})
 }
 
